@@ -852,8 +852,10 @@ def t_small(E):
             tv = wf.fields['timeout']
             E.oblige(fs.qualname + '/ensures.deadline_is_this_objects_timeout',
                      z3.BoolVal(False) if isinstance(tv, VNone) else _real(tv) == o.fields['timeout'].t,
-                     props={'C08', 'C15'}, detail='wait_for(..., None) never times out: the quiet period never ends '
-                                                  '(e.g. `self.timeout or None` for timeout=0)')
+                     props={'C08', 'C15', 'C07', 'C03'},
+                     detail='wait_for(..., None) never times out: the quiet period never ends (e.g. `self.timeout or '
+                            'None` for timeout=0) -- nothing is ever delivered by itself and wait(cancel=False) never '
+                            'returns')
             E.oblige(fs.qualname + '/ensures.task_belongs_to_the_instances_loop', z3.BoolVal(t.fields['loop'] is o.fields['loop']),
                      props={'C08', 'C03', 'C07'})
 
